@@ -190,7 +190,61 @@ def check_cache_guarded(ck, cm: CacheModel, rule="C09.R3"):
     return lock, decos
 
 
+def mutex_table(ck, mod):
+    """(table name, table lock name, kind of the per-call mutexes) of runner_local, by role: the table is
+    the module-level container that _mutex_for_invocation looks the mutex up in, its lock the
+    module-level lock that function holds meanwhile."""
+    mi = ck.repo.func(RL + "._mutex_for_invocation")
+    used = [n.id for n in A.walk_body(mi.node) if isinstance(n, ast.Name)]
+    table = table_lock = kind = None
+    for name, v in mod.assigns.items():
+        if name not in used or not isinstance(v, (ast.Call, ast.Dict)):
+            continue
+        head = A.call_attr(v) if isinstance(v, ast.Call) else "dict"
+        if head in ("RLock", "Lock"):
+            table_lock = name
+        elif head in ("defaultdict", "dict", "OrderedDict", "WeakValueDictionary"):
+            table = name
+            for c in ast.walk(v):
+                if isinstance(c, ast.Call) and A.call_attr(c) in ("RLock", "Lock"):
+                    kind = A.call_attr(c)
+    if kind is None:
+        for c in A.body_calls(mi.node):
+            if A.call_attr(c) in ("RLock", "Lock"):
+                kind = A.call_attr(c)
+    ck.need(table and table_lock and kind, "runner_local: per-call mutex table / its lock not found")
+    return table, table_lock, kind
+
+
+def check_mutex_table_stable(ck, R):
+    """One mutex per invocation key for the life of the process: the table only ever grows.  If an
+    entry can be dropped (bounded / LRU / weak table, clear) while a thread is still inside the
+    body under that mutex, the next caller of the same invocation gets a fresh mutex, does not wait,
+    and runs the body a second time."""
+    mod = ck.repo.module(RL)
+    table, table_lock, kind = mutex_table(ck, mod)
+    drops = []
+    for fi in mod.all_funcs():
+        for n in A.walk_body(fi.node):
+            if isinstance(n, ast.Call) and isinstance(n.func, ast.Attribute) and isinstance(n.func.value, ast.Name) and n.func.value.id == table \
+                    and n.func.attr in ("pop", "popitem", "clear", "__delitem__"):
+                drops.append((fi, n))
+            if isinstance(n, ast.Delete) and any(isinstance(t, ast.Subscript) and isinstance(t.value, ast.Name) and t.value.id == table for t in n.targets):
+                drops.append((fi, n))
+            if isinstance(n, ast.Global) and table in n.names:
+                drops.append((fi, n))
+    v = mod.assigns.get(table)
+    weak = isinstance(v, ast.Call) and "Weak" in (A.call_attr(v) or "")
+    ok = not drops and not weak
+    at = A.loc(drops[0][0], drops[0][1]) if drops else mod.relpath
+    ck.ob(R, RL + "::mutex-table-insert-only", ok, "the per-call mutex table only grows (%s)" % table if ok else
+          "a per-call mutex can leave the table (%s): while one thread is still inside the body under that mutex, the next caller of the same "
+          "invocation is handed a fresh mutex, does not wait, and runs the body again" % ("weak table" if weak else A.short(drops[0][1], 50)), at)
+
+
 def check(ck):
+    from .memo import check_new_memo_tables
+    ck.run(check_new_memo_tables, ck, "C09.M1", ('runner_local', 'storage_base', 'call_stack'))
     R1, R2, R3, R4, R5 = ("C09.R%d" % i for i in range(1, 6))
     ck.rule(R1, "the per-call mutex table is only touched while its table lock is held", 1)
     ck.rule(R2, "per-call critical section: store re-check, body call, is_memoized and memoize all happen inside the "
@@ -200,15 +254,7 @@ def check(ck):
     ck.rule(R5, "call stacks are created and stored only in thread-local storage", 3)
     mod = ck.repo.module(RL)
     # ---- R1
-    table, table_lock = None, None
-    for name, v in mod.assigns.items():
-        if isinstance(v, ast.Call) and A.call_attr(v) == "defaultdict" and v.args and isinstance(v.args[0], ast.Lambda) \
-                and isinstance(v.args[0].body, ast.Call) and A.call_attr(v.args[0].body) in ("RLock", "Lock"):
-            table = name
-            table_kind = A.call_attr(v.args[0].body)
-        elif isinstance(v, ast.Call) and A.call_attr(v) in ("RLock", "Lock"):
-            table_lock = name
-    ck.need(table and table_lock, "runner_local: per-call mutex table / its lock not found")
+    table, table_lock, table_kind = mutex_table(ck, mod)
     for fi in mod.all_funcs():
         fa = FA(ck, fi)
         for n in A.walk_body(fi.node):
@@ -222,6 +268,7 @@ def check(ck):
                         break
                 ck.ob(R1, fa.key(n, "table-access"), inside, "mutex table accessed under %s" % table_lock if inside else
                       "the mutex table (a defaultdict) is accessed without holding %s" % table_lock, fa.where(n))
+    ck.run(check_mutex_table_stable, ck, R2)
     # ---- R2
     ck.ob(R2, RL + "::mutex-reentrant", table_kind == "RLock", "per-call mutexes are re-entrant (RLock)" if table_kind == "RLock" else
           "per-call mutexes are not re-entrant: a function calling itself with equal arguments deadlocks", mod.relpath)
@@ -229,6 +276,12 @@ def check(ck):
     r = mi.one(mi.returns(), "return")
     okk = isinstance(r.value, ast.Subscript) and A.norm(r.value.value) == table and isinstance(r.value.slice, ast.Tuple) \
         and [A.norm(e) for e in r.value.slice.elts] == ["fn_reference_with_args.fn_reference.qualified_name", "fn_reference_with_args.arg_hash"]
+    if not okk and not isinstance(r.value, ast.Subscript):
+        # get-or-create spelled out: the looked-up key is the pair, and the returned mutex comes out of the table
+        keys = {mi.xnorm(t.slice) for st in mi.stmts(ast.Assign) for t in st.targets if isinstance(t, ast.Subscript) and A.norm(t.value) == table}
+        keys |= {mi.xnorm(c.args[0]) for c in mi.calls() if A.call_attr(c) in ("get", "setdefault") and A.norm(A.call_recv(c)) == table and c.args}
+        okk = keys == {"(fn_reference_with_args.fn_reference.qualified_name, fn_reference_with_args.arg_hash)"} and \
+            ("global:" + table in mi.deps(r.value) or "call:get" in mi.deps(r.value) or "call:setdefault" in mi.deps(r.value))
     ck.ob(R2, mi.key(r, "mutex-key"), okk, "one mutex per (versioned function name, argument hash)" if okk else
           "the per-call mutex is not keyed by (qualified_name, arg_hash) of the invocation: distinct calls serialise or equal calls do not", mi.where(r))
     rl = FA(ck, RL + ".memento_run_local")
